@@ -1576,7 +1576,12 @@ uint8_t* _Znwm(uint64_t n) {
 #endif
   __CPROVER_assume(n <= VERIF_MAX_ALLOC);
   g_verif_alloc_total += n; g_verif_alloc_count += 1;
+#ifdef VERIF_SMALL_ALLOC   /* opt-in second chunk class: requests up to VERIF_SMALL_ALLOC bytes get a small chunk (object headers
+                             need a large VERIF_MAX_ALLOC, data buffers with symbolic write offsets should stay small) */
+  uint8_t* p = (n <= VERIF_SMALL_ALLOC) ? malloc(VERIF_SMALL_ALLOC) : malloc(VERIF_MAX_ALLOC);
+#else
   uint8_t* p = malloc(VERIF_MAX_ALLOC);
+#endif
   __CPROVER_assume(p != 0);
 #ifdef __CPROVER__
   verif_req[__CPROVER_POINTER_OBJECT(p)] = n + 1;
